@@ -194,6 +194,21 @@ pub fn table_cases(thorough: bool, seed: u64, table: &[Value]) -> Vec<GCase> {
 }
 
 pub fn c20(a: &Args) {
+    if a.has("stream") {
+        // `--stream FILE --emu rip|igs`: run the bytes of FILE as one case and print one line per noteworthy event
+        let bytes = std::fs::read(a.str("stream", "")).expect("stream file");
+        let c = GCase { id: "stream".into(), emu: if a.str("emu", "igs") == "rip" { "rip" } else { "igs" }.into(), bytes };
+        let mut evs = vec![];
+        let t0 = Instant::now();
+        run_case(&c, &mut evs);
+        let mut bad = 0;
+        for e in &evs {
+            let slow = e["us"].as_u64().unwrap_or(0) > 1_000_000;
+            if e["r"].as_str().map(|r| r != "ok" && r != "err").unwrap_or(false) || slow { bad += 1; println!("{e}"); }
+        }
+        println!("stream: {} events, {} noteworthy, {} ms", evs.len(), bad, t0.elapsed().as_millis());
+        return;
+    }
     let out_path = a.str("out", "work/C20/trace.ndjson");
     let progress = a.str("progress", &format!("{out_path}.progress"));
     let start = a.usize("start", 0);
@@ -208,6 +223,14 @@ pub fn c20(a: &Args) {
     let n_rand = if thorough { 30000 } else { 3000 };
     for k in 0..n_rand {
         all.push(gen_case(seed, k, if k % 2 == 0 { "rip" } else { "igs" }));
+    }
+    if a.has("find-case") {
+        // dump the input of the case with this id (for replay / minimisation)
+        let id = a.str("find-case", "");
+        if let Some(c) = all.iter().find(|c| c.id == id) {
+            println!("{}", json!({"emu":c.emu,"id":c.id,"bytes":c.bytes}));
+        }
+        return;
     }
     let mine: Vec<&GCase> = all.iter().enumerate().filter(|(i, _)| i % shards == shard).map(|(_, c)| c).collect();
     if a.has("dump-case") {
